@@ -270,7 +270,24 @@ def member_texts():
                                  "\uff54\uff52\uff55\uff45", "tru\uff45", "nul\u217c", "\u0130nf", ".\u0131nf", ".\u0130NF", "\xb2", "1\xb2", "\xbd", "1:\u0663\u0660",
                                  "\u2460", "1e\u0661", "\u06f1\u06f2", "1_\u0967", "o\uff4e", "\uff4f\uff46\uff46", "~\u200b", "\u200b~", "nu\u200bll", "1\u200b2",
                                  "\u221e", "-\u221e", "\u2212" + "1", "\uff0d1", "\uff0b1", "1\uff0e5", "1\u066b5", "\uff1c\uff1c", "\uff1d"])
-    member = st.one_of(dec, octal, binary, hexa, sexa, flt, flt, sexaf, special, special, date, stamp, stamp, digits, lookalike)
+    # extreme magnitudes and lengths: long sexagesimal numbers (a base-60 float overflows a double beyond 174 groups), long digit runs in
+    # every base (below CPython's 4300-digit int<->str limit), floats that overflow / underflow, long runs of '_'
+    # (Hypothesis draws short lists: the group count is drawn explicitly)
+    gpat = st.sampled_from([":00", ":59", ":0", ":5", ":07", ":30"])
+    groups = st.tuples(gpat, st.sampled_from([2, 20, 100, 170, 173, 174, 175, 176, 180, 220]), gpat, st.sampled_from([0, 1, 2, 5])).map(
+        lambda t: t[0] * t[1] + t[2] * t[3])
+    sexa_long = st.tuples(sign, st.sampled_from(["1", "9", "12", "0", "1_0"]), groups, st.sampled_from(["", "", ".", ".5", ".0", ".999", "._5"])).map("".join)
+    n_long = st.sampled_from([20, 60, 200, 308, 309, 400, 1000, 1200])
+    dec_long = st.tuples(sign, st.sampled_from(["1", "9", "0", "0x", "0b", "0x_", "1_"]), st.sampled_from(["0", "1", "7", "f", "_", "9"]), n_long).map(
+        lambda t: t[0] + t[1] + t[2] * t[3])
+    flt_long = st.tuples(sign, st.sampled_from(["1", "9", "0"]), st.sampled_from(["0", "9"]), n_long, st.sampled_from([".", ".0", ".5", ".0e+5", ".0e-5"])).map(
+        lambda t: t[0] + t[1] + t[2] * t[3] + t[4])
+    flt_exp = st.tuples(sign, st.sampled_from(["1.0", "9.9", "0.0", ".5", "1."]), st.sampled_from(["e+", "e-", "E+"]),
+                        st.sampled_from(["307", "308", "309", "323", "324", "325", "400", "9999", "00000400"])).map("".join)
+    frac_long = st.tuples(sign, st.sampled_from(["0.", ".", "1."]), st.sampled_from(["0", "9"]), n_long, st.sampled_from(["", "1", "e+400", "e-10"])).map(
+        lambda t: t[0] + t[1] + t[2] * t[3] + t[4])
+    extreme = st.one_of(sexa_long, sexa_long, dec_long, flt_long, flt_exp, frac_long)
+    member = st.one_of(dec, octal, binary, hexa, sexa, flt, flt, sexaf, special, special, date, stamp, stamp, digits, lookalike, extreme)
 
     def edit(t):
         s, op, pos, ch = t
